@@ -31,6 +31,11 @@ OPS = {"+": ("+", "Plus"), "-": ("-", "Minus"), "–": ("-", "Minus"), "*": ("*"
 EXTRA = ["–", "٣", "Ａ", "é", "²", "−", "×", "\u212a", "\u017f", "\u0131", "\uff11", "\u03b1", "\u2160"]
 
 
+# reduced alphabet for longer strings: the letters of the registered function name, one of them also in upper case, another
+# letter, the exponent mark of scientific notation, a digit, the dot, two operators, padding and an unsupported character
+SMALL_ALPHABET = "sgnNxE7.+- #"
+
+
 def universe() -> frozenset:
     return frozenset([chr(i) for i in range(256)] + EXTRA)
 
@@ -211,7 +216,7 @@ def run(chk: Check) -> None:
     for r in ("C11.R2", "C11.R3", "C11.R4", "C11.R5"):
         chk.rule(r, "classification of a disagreement (operator table / end marker / unsupported char / boundaries)", minimum=0)
     U = universe()
-    small = frozenset("sgnSGNx7.+ #")
+    small = frozenset(SMALL_ALPHABET)
     L = 2 if chk.tier == "quick" else 3
     chk.explanation = (
         f"Decides: Tokenizer.tokenize, interpreted from source on symbolic strings of length 0..{L} over an alphabet of "
